@@ -55,8 +55,6 @@ class C13(Prop):
         'correspondence harness harness/c13.py: real TaskManager._pilot_state_cb, Task.__init__/_update/as_dict and '
         'Pilot._update on objects built with mock set-up (TaskManager and Pilot without __init__, advance() '
         'recorded), compared inside Coq by vm_compute with the model',
-        'clause `reported` (what is handed to advance()) is checked on the implementation traces and through the '
-        'model correspondence only; it is not a theorem',
         'modelled, not verified: the publication of the advanced tasks (Component.advance), locking, the race '
         'with the tmgr scheduler noted in the code (a task bound after the callback ran)',
     ]
